@@ -63,11 +63,19 @@ func NewStringNodeID(ns uint16, id string) *NodeID {
 }
 
 // NewGUIDNodeID returns a new GUID node id.
+//
+// If id is not a valid GUID the node id has the zero GUID
+// since a GUID node id without a GUID can neither be encoded
+// nor be parsed back from its string representation.
 func NewGUIDNodeID(ns uint16, id string) *NodeID {
+	gid := NewGUID(id)
+	if gid == nil {
+		gid = &GUID{Data4: make([]byte, 8)}
+	}
 	return &NodeID{
 		mask: NodeIDTypeGUID,
 		ns:   ns,
-		gid:  NewGUID(id),
+		gid:  gid,
 	}
 }
 
@@ -269,7 +277,11 @@ func (n *NodeID) StringID() string {
 func (n *NodeID) SetStringID(v string) error {
 	switch n.Type() {
 	case NodeIDTypeGUID:
-		n.gid = NewGUID(v)
+		gid := NewGUID(v)
+		if gid == nil {
+			return errors.Errorf("invalid guid: %s", v)
+		}
+		n.gid = gid
 		return nil
 
 	case NodeIDTypeString:
